@@ -41,7 +41,17 @@ SIGMA_CGS = 2 * math.pi ** 5 * K_CGS ** 4 / (15 * H_CGS ** 3 * (C_AA * 1e-8) ** 
 XMAX = 600.0                     # h nu / kT above this is "underflow territory" (skipped)
 TINY = 1e-300
 
-TFORMS = {'number': F(1), 'K': F(1), 'mK': F(1, 1000), 'kK': F(1000)}
+# ---- spellings of quantity-valued inputs: name -> exact scale to the target unit (None: astropy cannot convert
+# the unit to the target unit, the call must raise UnitConversionError).  Bare numbers come in the kinds below.
+NUMKINDS = ['number', 'int', 'np.float64', 'np.int64', 'np.array0d']
+INTKINDS = ('int', 'np.int64')
+TFORMS = {'number': F(1), 'int': F(1), 'np.float64': F(1), 'np.int64': F(1), 'np.array0d': F(1),
+          'K': F(1), 'mK': F(1, 1000), 'kK': F(1000), 'uK': F(1, 10 ** 6), 'MK': F(10 ** 6),
+          'deg_C': None, 'm': None, 'eV': None, 'dimensionless': None}
+FFORMS = {'number': F(1), 'int': F(1), 'np.float64': F(1), 'np.int64': F(1), 'np.array0d': F(1),
+          '': F(1), 'one': F(1), 'percent': F(1, 100), 'Unit(0.5)': F(1, 2), 'cm/m': F(1, 100), 'cm/m:div': F(1, 100),
+          'mm/m': F(1, 1000), 'm/cm': F(100), 'arcsec2/arcmin2': F(1, 3600), 'arcsec2/arcmin2:div': F(1, 3600),
+          'm': None, 'rad': None, 'K': None, 'arcsec2': None}
 RESERVED = ('XTENSION', 'BITPIX', 'NAXIS', 'PCOUNT', 'GCOUNT', 'TFIELDS', 'TTYPE', 'TFORM', 'TUNIT',
             'EXTNAME', 'EXTVER', 'SIMPLE', 'EXTEND', 'END', 'COMMENT', 'HISTORY', 'HIERARCH', 'CONTINUE',
             'TDISP', 'TNULL', 'TSCAL', 'TZERO', 'TDIM', 'THEAP', 'BLANK', 'BSCALE', 'BZERO', 'CHECKSUM',
@@ -90,13 +100,79 @@ def boltz_x(lam, t):
 
 
 def temp_kelvin(case):
-    return float(unq(case['tval'])) * float(TFORMS[case['tform']])
+    """physical temperature in K of a case / step (None: the spelling is refused)"""
+    sc = TFORMS[case['tform']]
+    return None if sc is None else float(unq(case['tval'])) * float(sc)
+
+
+def number_kind(v, kind):
+    if kind == 'int':
+        return int(v)
+    if kind == 'np.int64':
+        return np.int64(int(v))
+    if kind == 'np.float64':
+        return np.float64(v)
+    if kind == 'np.array0d':
+        return np.array(v)
+    return v
 
 
 def temp_arg(case):
     import astropy.units as u
     v = float(unq(case['tval']))
-    return v if case['tform'] == 'number' else v * u.Unit(case['tform'])
+    form = case['tform']
+    if form in NUMKINDS:
+        return number_kind(v, form)
+    if form == 'dimensionless':
+        return u.Quantity(v)
+    return v * u.Unit(form)
+
+
+def fill_form(d):
+    if 'fform' in d:
+        return d['fform']
+    return '' if d.get('fill_quantity') or d.get('quantity') else 'number'      # cases written before 'fform'
+
+
+def fill_value(d):
+    """physical beam filling factor of a case / step (None: refused)"""
+    sc = FFORMS[fill_form(d)]
+    return None if sc is None else float(unq(d['fill'])) * float(sc)
+
+
+def fill_arg(d):
+    """the beam filling factor as the caller spells it"""
+    import astropy.units as u
+    v = float(unq(d['fill']))
+    form = fill_form(d)
+    if form in NUMKINDS:
+        return number_kind(v, form)
+    if form == '':
+        return v * u.dimensionless_unscaled
+    if form == 'one':
+        return u.Quantity(v)
+    if form == 'Unit(0.5)':
+        return v * u.Unit(0.5)
+    if form.endswith(':div'):            # an unsimplified ratio of two like quantities
+        a, b = form[:-4].split('/')
+        return (2 * v * u.Unit(a)) / (2 * u.Unit(b))
+    return v * u.Unit(form)
+
+
+def qin(val, scale):
+    """model spelling of a quantity-valued input"""
+    if scale is None:
+        return {'bad': val}
+    return {'q': val, 'scale': q(scale)}
+
+
+def temp_qin(d):
+    return {'num': d['tval']} if d['tform'] in NUMKINDS else qin(d['tval'], TFORMS[d['tform']])
+
+
+def fill_qin(d):
+    form = fill_form(d)
+    return {'num': d['fill']} if form in NUMKINDS else qin(d['fill'], FFORMS[form])
 
 
 def floats(xs):
@@ -108,7 +184,8 @@ def bb_spec(case, tscale=1.0):
     from synphot import SourceSpectrum
     from synphot.models import BlackBody1D, BlackBodyNorm1D
     cls = BlackBodyNorm1D if case['kind'] == 'norm' else BlackBody1D
-    return SourceSpectrum(cls, temperature=temp_arg(case) * tscale)
+    t = temp_arg(case)
+    return SourceSpectrum(cls, temperature=t if tscale == 1.0 else t * tscale)
 
 
 def impl_bb(case):
@@ -130,10 +207,7 @@ def mk_thermal(case):
     import astropy.units as u
     from synphot.thermal import ThermalSpectralElement
     from synphot.models import Empirical1D
-    fill = float(unq(case['fill']))
-    if case.get('fill_quantity'):
-        fill = fill * u.dimensionless_unscaled
-    return ThermalSpectralElement(Empirical1D, temp_arg(case), beam_fill_factor=fill,
+    return ThermalSpectralElement(Empirical1D, temp_arg(case), beam_fill_factor=fill_arg(case),
                                   points=floats(case['pts']), lookup_table=floats(case['vals']))
 
 
@@ -154,17 +228,20 @@ def query(th, w):
 def run_steps(th, w, steps):
     """the history on ONE element object: assignments to the attributes interleaved with queries"""
     import astropy.units as u
-    hist = []
+    hist, assign = [], []
     for st in steps:
-        if st['act'] == 'set_T':
-            v = float(unq(st['tval']))
-            th.temperature = v if st['tform'] == 'number' else v * u.Unit(st['tform'])
-        elif st['act'] == 'set_fill':
-            f = float(unq(st['fill']))
-            th.beam_fill_factor = f * u.dimensionless_unscaled if st.get('quantity') else f
-        else:
+        if st['act'] == 'query':
             hist.append(query(th, w))
-    return hist
+            continue
+        try:
+            if st['act'] == 'set_T':
+                th.temperature = temp_arg(st)
+            else:
+                th.beam_fill_factor = fill_arg(st)
+            assign.append('ok')
+        except Exception as e:  # noqa
+            assign.append(core.exc_name(e))
+    return hist, assign
 
 
 def thermal_outcome(th, w, case):
@@ -173,7 +250,7 @@ def thermal_outcome(th, w, case):
     if case.get('fresh_query', True):
         o = query(th, w)
         out.update({'sample': o['sample'], 'meta_temp': o.get('meta_temp'), 'meta_fill': o.get('meta_fill')})
-    out['history'] = run_steps(th, w, case.get('steps', []))
+    out['history'], out['assign'] = run_steps(th, w, case.get('steps', []))
     return out
 
 
@@ -313,11 +390,9 @@ def model_case(case):
     op = case['op']
     K = case['_const']
     if op == 'bb':
-        return {'op': 'bb', 'const': K, 'kind': case['kind'], 'tval': case['tval'],
-                'tscale': q(TFORMS[case['tform']]), 'w': case['w']}
+        return {'op': 'bb', 'const': K, 'kind': case['kind'], 'tq': temp_qin(case), 'w': case['w']}
     if op == 'thermal':
-        return {'op': 'thermal', 'const': K, 'tval': case['tval'], 'tscale': q(TFORMS[case['tform']]),
-                'fill': case['fill'], 'pts': case['pts'], 'vals': case['vals'], 'w': case['w'],
+        return {'op': 'thermal', 'const': K, 'tq': temp_qin(case), 'fq': fill_qin(case), 'pts': case['pts'], 'vals': case['vals'], 'w': case['w'],
                 'steps': model_steps(case)}
     if op == 'thermal_file':
         return {'op': 'thermal_file', 'const': K, 'is_fits': case['is_fits'], 'hdr': case['hdr'],
@@ -331,22 +406,26 @@ def model_steps(case):
     out = []
     for st in case.get('steps', []):
         if st['act'] == 'set_T':
-            out.append({'act': 'set_T', 'tval': st['tval'], 'tscale': q(TFORMS[st['tform']])})
+            out.append({'act': 'set_T', 'tq': temp_qin(st)})
         elif st['act'] == 'set_fill':
-            out.append({'act': 'set_fill', 'fill': st['fill']})
+            out.append({'act': 'set_fill', 'fq': fill_qin(st)})
         else:
             out.append({'act': 'query'})
     return out
 
 
 def compare(case, o, m):
+    if case['op'] in ('bb', 'thermal') and isinstance(m, dict) and 'ok' in m:
+        m = m['ok']          # the model wraps the constructed object's results in "ok" (construction may raise)
+        if 'err' in o:
+            return 'impl %s vs model ok' % core._short(o)
     if case['op'] == 'bb' and case['class'] in ('T<0', 'T=0') and isinstance(m, dict):
         # `BaseSpectrum.integrate` first validates the model's default sampling set, which does not exist for
         # T <= 0 (outside the property's domain); only sampling and lambda_max are compared there
         m = {k: v for k, v in m.items() if k != 'integrate'}
     if case['op'] in ('thermal', 'thermal_file') and not case.get('fresh_query', True):
         # no query was made on the fresh element: the model's value for it has no counterpart
-        if 'ok' in m:
+        if 'ok' in m and case['op'] == 'thermal_file':
             m = {'ok': {k: v for k, v in m['ok'].items() if k != 'sample'}}
         elif 'err' not in m:
             m = {k: v for k, v in m.items() if k != 'sample'}
@@ -428,14 +507,15 @@ def check_product(rep, case, out, s, emis, t, fill, sig, what):
             return
 
 
-def check_query(rep, case, out, qo, emis, t, fill, tag, label, what):
+def check_query(rep, case, out, qo, emis, t, fill, tag, label, what, forms=('?', '?')):
     """one query against the element's CURRENT attributes (t, fill): attributes as assigned, meta of the
     returned source, pointwise product"""
     sig = '%s:%s' % (tag, label)
-    if not rel(qo['temp'], t) or qo['fill'] != fill:
-        rep.oracle_fail('%s:attributes:not-as-assigned' % sig,
-                        '%s: element has T=%r K, fill=%r; assigned T=%r K, fill=%r' % (what, qo['temp'], qo['fill'], t, fill),
-                        case, out)
+    if not rel(qo['temp'], t) or not rel(qo['fill'], fill):
+        which = 'T as %s' % forms[0] if not rel(qo['temp'], t) else 'fill as %s' % forms[1]
+        rep.oracle_fail('%s:attributes:%s:not-the-physical-value' % (sig, which),
+                        '%s: element has T=%r K, fill=%r; the values assigned (T as %s, fill as %s) are T=%r K, fill=%r' % (
+                            what, qo['temp'], qo['fill'], forms[0], forms[1], t, fill), case, out)
         return
     if 'meta_temp' in qo and qo['meta_temp'] is not None and (qo['meta_temp'] != qo['temp'] or qo['meta_fill'] != qo['fill']):
         rep.oracle_fail('%s:meta:not-current' % sig,
@@ -444,46 +524,81 @@ def check_query(rep, case, out, qo, emis, t, fill, tag, label, what):
     check_product(rep, case, out, qo['sample'], emis, t, fill, sig, what)
 
 
-def check_history(rep, case, out, o, t, fill, tag):
+MUST_REFUSE_T = ('m', 'eV', 'dimensionless')       # deg_C: a temperature; its refusal is the code's choice (model only)
+
+
+def check_history(rep, case, out, o, t, fill, tag, forms=('number', 'number')):
     """replay the case's history: after every query the source must be the product for the attribute values
-    assigned last (the element as it is when asked), whatever was assigned or asked before"""
+    assigned last (the element as it is when asked), whatever was assigned or asked before; an assignment in an
+    inconvertible unit must raise and leave the element as it was"""
     since, asked = set(), False
+    forms = list(forms)
     if case.get('fresh_query', True):
         check_query(rep, case, out, {k: o.get(k) for k in ('temp', 'fill', 'meta_temp', 'meta_fill', 'sample')},
-                    o['emis'], t, fill, tag, 'fresh', 'query 0 (fresh element)')
+                    o['emis'], t, fill, tag, 'fresh', 'query 0 (fresh element)', forms)
         asked = True
     hist = list(o.get('history', []))
-    nq = 0
+    assign = list(o.get('assign', []))
+    nq = na = 0
     for k, st in enumerate(case.get('steps', [])):
-        if st['act'] == 'set_T':
-            t = float(unq(st['tval'])) * float(TFORMS[st['tform']])
-            since.add('set_T')
-        elif st['act'] == 'set_fill':
-            fill = float(unq(st['fill']))
-            since.add('set_fill')
-        else:
+        if st['act'] == 'query':
             if nq >= len(hist):
                 rep.oracle_fail('%s:history:missing-result' % tag, 'query at step %d has no result' % k, case, out)
                 return
             label = ('after-' + '+'.join(sorted(since))) if since else ('repeat' if asked else 'fresh')
             check_query(rep, case, out, hist[nq], o['emis'], t, fill, tag, 'history:' + label,
-                        'step %d (query %s)' % (k, label))
+                        'step %d (query %s)' % (k, label), forms)
             nq += 1
             since, asked = set(), True
+            continue
+        res = assign[na] if na < len(assign) else 'missing'
+        na += 1
+        if st['act'] == 'set_T':
+            new, form, must = temp_kelvin(st), st['tform'], st['tform'] in MUST_REFUSE_T
+        else:
+            new, form, must = fill_value(st), fill_form(st), True
+        if new is None:
+            if must and res == 'ok':
+                rep.oracle_fail('%s:history:%s as %s:not-refused' % (tag, st['act'], form),
+                                'step %d: assigning a value in %s was accepted' % (k, form), case, out)
+                return
+            since.add(st['act'] + '-refused')
+            continue
+        if res != 'ok':
+            rep.oracle_fail('%s:history:%s as %s:%s' % (tag, st['act'], form, res),
+                            'step %d: a valid assignment raised %s' % (k, res), case, out)
+            return
+        if st['act'] == 'set_T':
+            t, forms[0] = new, form
+        else:
+            fill, forms[1] = new, form
+        since.add(st['act'])
 
 
 def oracle_thermal(rep, case, out):
-    if 'err' in out:
-        rep.oracle_fail('thermal:construct:%s' % out['err'], 'valid thermal element raised %s' % out, case, out)
-        return
     t = temp_kelvin(case)
-    fill = float(unq(case['fill']))
+    fill = fill_value(case)
+    fform = fill_form(case)
+    if t is None or fill is None:
+        # an argument in a unit that cannot be converted must be refused (deg_C: the code's choice, model only)
+        must = fill is None or case['tform'] in MUST_REFUSE_T
+        if must and out.get('err') != 'UnitError':
+            rep.oracle_fail('thermal:construct:%s:not-refused' % (
+                'fill as ' + fform if fill is None else 'T as ' + case['tform']),
+                'an argument in an inconvertible unit was not refused with a unit error: %s' % core._short(out), case, out)
+        return
+    if 'err' in out:
+        rep.oracle_fail('thermal:construct:%s' % out['err'], 'valid thermal element (T as %s, fill as %s) raised %s' % (
+            case['tform'], fform, out), case, out)
+        return
     if not rel(out['temp'], t):
         rep.oracle_fail('thermal:temperature:%s:not-converted' % case['tform'],
                         'temperature %r K for input %r %s' % (out['temp'], float(unq(case['tval'])), case['tform']), case, out)
-    if out['fill'] != fill:
-        rep.oracle_fail('thermal:beam_fill_factor:changed', 'beam_fill_factor %r for input %r' % (out['fill'], fill), case, out)
-    check_history(rep, case, out, out, t, fill, 'thermal')
+    if not rel(out['fill'], fill):
+        rep.oracle_fail('thermal:beam_fill_factor:fill as %s:not-the-physical-value' % fform,
+                        'beam_fill_factor %r for input %r %s (= %r)' % (out['fill'], float(unq(case['fill'])), fform, fill),
+                        case, out)
+    check_history(rep, case, out, out, t, fill, 'thermal', (case['tform'], fform))
 
 
 def caller_key(case, which):
@@ -561,12 +676,24 @@ def oracle(rep, case, out):
 
 
 # ------------------------------------------------------------------ generators
-def gen_temp(rng):
-    """T in 3..1e6 K, as a number or a Quantity in K / mK / kK"""
+T_GOOD = ['number', 'number', 'int', 'np.float64', 'np.int64', 'np.array0d', 'K', 'K', 'mK', 'mK', 'kK', 'uK', 'MK']
+T_BAD = [k for k, v in TFORMS.items() if v is None]
+F_GOOD = ['number', 'number', 'int', 'np.float64', 'np.int64', 'np.array0d', '', '', 'one', 'percent', 'percent',
+          'Unit(0.5)', 'cm/m', 'cm/m:div', 'mm/m', 'm/cm', 'arcsec2/arcmin2', 'arcsec2/arcmin2:div']
+F_BAD = [k for k, v in FFORMS.items() if v is None]
+
+
+def gen_temp(rng, allow_bad=False):
+    """T in 3..1e6 K in any spelling: a number (float, int, NumPy scalar, 0-d array) or a Quantity in K, mK, kK,
+    uK, MK; with allow_bad, ~4% in a unit astropy cannot convert to K"""
     t = 10 ** rng.uniform(math.log10(3.0), 6.0)
     if rng.random() < 0.1:
         t = float(rng.choice([3, 10, 100, 300, 5000, 5778, 10000, 1000000]))
-    tform = rng.choice(['number', 'number', 'K', 'K', 'mK', 'kK'])
+    if allow_bad and rng.random() < 0.04:
+        return t, rng.choice(T_BAD)
+    tform = rng.choice(T_GOOD)
+    if tform in INTKINDS:
+        t = float(max(3, round(t)))
     tval = t / float(TFORMS[tform])
     return tval, tform
 
@@ -581,10 +708,14 @@ def gen_waves(rng, t, n, lo=10.0, hi=1e8):
 
 
 def gen_bb(rng, K, nmax):
-    tval, tform = gen_temp(rng)
+    tval, tform = gen_temp(rng, True)
     case = {'op': 'bb', 'kind': rng.choice(['plain', 'norm']), 'tval': q(tval), 'tform': tform, '_const': K,
             'class': 'plain'}
     t = temp_kelvin(case)
+    if t is None:               # a temperature in a unit that cannot be converted to K: refused at construction
+        case['class'] = 'T-refused'
+        case['w'] = qs(gen_waves(rng, 300.0, rng.randint(1, nmax)))
+        return case
     w = gen_waves(rng, t, rng.randint(1, nmax))
     r = rng.random()
     if r < 0.012:
@@ -653,7 +784,16 @@ def gen_table_waves(rng, t, pts, n):
 
 
 def gen_fill(rng):
-    return rng.choice([1.0, 0.5, round(rng.uniform(0.001, 1.0), 4), rng.uniform(0.001, 2.0), 2.0])
+    """a beam filling factor in any spelling: (value in the unit, spelling).  Numbers of several kinds, unscaled
+    dimensionless Quantities, and dimensionless-but-scaled units (percent, Unit(0.5), cm/m, arcsec2/arcmin2, also as
+    unsimplified ratios of two Quantities); ~4% in a unit that is not dimensionless (must be refused)"""
+    f = rng.choice([1.0, 0.5, round(rng.uniform(0.001, 1.0), 4), rng.uniform(0.001, 2.0), 2.0])
+    if rng.random() < 0.04:
+        return f, rng.choice(F_BAD)
+    form = rng.choice(F_GOOD)
+    if form in INTKINDS:
+        f = float(rng.choice([1, 2]))
+    return f / float(FFORMS[form]), form
 
 
 def gen_steps(rng, nmax):
@@ -664,29 +804,30 @@ def gen_steps(rng, nmax):
         if r < 0.45:
             steps.append({'act': 'query'})
         elif r < 0.7:
-            tval, tform = gen_temp(rng)
+            tval, tform = gen_temp(rng, True)
             steps.append({'act': 'set_T', 'tval': q(tval), 'tform': tform})
         else:
-            steps.append({'act': 'set_fill', 'fill': q(gen_fill(rng)), 'quantity': rng.random() < 0.3})
+            fv, fform = gen_fill(rng)
+            steps.append({'act': 'set_fill', 'fill': q(fv), 'fform': fform})
     if steps[-1]['act'] != 'query':
         steps.append({'act': 'query'})
     return steps
 
 
 def steps_tmin(steps, t):
-    return min([t] + [float(unq(st['tval'])) * float(TFORMS[st['tform']]) for st in steps if st['act'] == 'set_T'])
+    ts = [temp_kelvin(st) for st in steps if st['act'] == 'set_T']
+    return min([x for x in [t] + ts if x is not None] or [300.0])
 
 
 def gen_thermal(rng, K, nmax):
-    tval, tform = gen_temp(rng)
-    if tform == 'kK' and rng.random() < 0.5:
-        tform, tval = 'K', tval * 1000
+    tval, tform = gen_temp(rng, True)
     case = {'op': 'thermal', 'tval': q(tval), 'tform': tform, '_const': K}
     case['steps'] = gen_steps(rng, 6) if rng.random() < 0.8 else []
     case['fresh_query'] = rng.random() < 0.75
     t = steps_tmin(case['steps'], temp_kelvin(case))
     pts, vals = gen_table(rng, nmax)
-    case.update({'pts': qs(pts), 'vals': qs(vals), 'fill': q(gen_fill(rng)), 'fill_quantity': rng.random() < 0.3,
+    fv, fform = gen_fill(rng)
+    case.update({'pts': qs(pts), 'vals': qs(vals), 'fill': q(fv), 'fform': fform,
                  'w': qs(gen_table_waves(rng, t, pts, rng.randint(1, 8)))})
     return case
 
@@ -776,7 +917,8 @@ def tags(c, o):
     if op == 'bb':
         return ['bb:' + c['kind'], 'bb:T as ' + c['tform'], 'bb:class:' + c['class']]
     if op == 'thermal':
-        return ['thermal', 'thermal:T as ' + c['tform'], 'thermal:history steps=%d' % min(len(c.get('steps', [])), 7)]
+        return ['thermal', 'thermal:T as ' + c['tform'], 'thermal:fill as ' + (fill_form(c) or 'unscaled'),
+                'thermal:history steps=%d' % min(len(c.get('steps', [])), 7)]
     if op == 'thermal_file':
         return ['thermal_file', 'thermal_file:' + c['mode'], 'thermal_file:outcome:' + (o.get('err') or 'ok')]
     return [op]
@@ -831,14 +973,16 @@ def run(rep):
         execute(rep, cases)
     finally:
         shutil.rmtree(scratch, ignore_errors=True)
-    rep.rule = ('bb: T log-uniform in 3..1e6 K (plus round values) given as a number or a Quantity in K, mK, kK; '
+    rep.rule = ('bb: T log-uniform in 3..1e6 K (plus round values) in every spelling of the same physical value: float, int, '
+                'np.float64, np.int64, 0-d array, Quantity in K, mK, kK, uK, MK (~4%% in deg_C, m, eV, dimensionless: refused); '
                 'BlackBody1D or BlackBodyNorm1D; 1..%d distinct wavelengths log-uniform in 10..1e8 A restricted to '
                 'h nu/kT <= 600, ascending or descending; for half of them a second temperature T(1+d), d log-uniform '
                 '1e-6..3, for monotonicity; ~2.6%% cases outside the domain (invalid wavelengths, T<0, T=0) for the model only. '
                 'thermal: emissivity tables of 2..%d points (ascending/descending, tapered, negative entries, values in [0,1]) '
-                'x beam filling factors (numbers or dimensionless Quantities) x T forms, sampled inside, on knots and beyond '
+                'x beam filling factors in every spelling (number kinds, unscaled Quantity, percent, Unit(0.5), cm/m, mm/m, m/cm, '
+                'arcsec2/arcmin2, unsimplified ratios of two Quantities; ~4%% in m, rad, K, arcsec2: must be refused) x T spellings, sampled inside, on knots and beyond '
                 'both ends; on 80%% (files: 60%%) of the elements a history of up to 7 steps on the ONE element object - '
-                'thermal_source() queries interleaved with assignments to temperature (numbers, K, mK, kK) and '
+                'thermal_source() queries interleaved with assignments to temperature (all spellings) and '
                 'beam_fill_factor (numbers, Quantities), repeated queries, 25%% without a query on the fresh element - '
                 'every query compared with the model and the formula for the attribute values assigned last. thermal_file: scratch FITS files whose table header carries temperature / beam filling factor '
                 'under the default or caller-named keywords (any letter case), with distractor DEFT / BEAMFILL cards, missing '
